@@ -251,8 +251,8 @@ pub fn rank_case(kind: Kind) -> Case {
                 results.push(elems(&w));
             }
             for i in 0..4 {
-                ctx.claim(&format!("matrix-vs-vector[{}]", i), Th::Fp, B::Same(results[1][i], results[0][i]));
-                ctx.claim(&format!("kernel-vs-vector[{}]", i), Th::Fp, B::Same(results[2][i], results[0][i]));
+                ctx.claim(&format!("matrix-vs-vector[{}]", i), Th::Fp, B::Ident(results[1][i], results[0][i]));
+                ctx.claim(&format!("kernel-vs-vector[{}]", i), Th::Fp, B::Ident(results[2][i], results[0][i]));
             }
         }),
     }
@@ -296,7 +296,7 @@ pub fn slot_case(kind: Kind) -> Case {
                 }
                 let (a, b) = (elems(&ws[s]), elems(&w));
                 for i in 0..2 {
-                    ctx.claim(&format!("slot{}[{}]", s, i), Th::Fp, B::Same(a[i], b[i]));
+                    ctx.claim(&format!("slot{}[{}]", s, i), Th::Fp, B::Ident(a[i], b[i]));
                 }
             }
         }),
@@ -399,7 +399,7 @@ pub fn network_slots_case(kind: Kind) -> Case {
                         solo.update(0, 0, false, k as i32 + 1, &mut w, &mut g);
                     }
                     for (j, (x, y)) in elems(&aw[f]).iter().zip(elems(&w).iter()).enumerate() {
-                        ctx.claim(&format!("L{}-weights{}[{}]", i, f, j), Th::Fp, B::Same(*x, *y));
+                        ctx.claim(&format!("L{}-weights{}[{}]", i, f, j), Th::Fp, B::Ident(*x, *y));
                     }
                 }
                 if let (Some(b0), Some(ab)) = (b, ab) {
@@ -411,7 +411,7 @@ pub fn network_slots_case(kind: Kind) -> Case {
                         solo.update(0, 0, true, k as i32 + 1, &mut w, &mut g);
                     }
                     for (j, (x, y)) in elems(&ab).iter().zip(elems(&w).iter()).enumerate() {
-                        ctx.claim(&format!("L{}-bias[{}]", i, j), Th::Fp, B::Same(*x, *y));
+                        ctx.claim(&format!("L{}-bias[{}]", i, j), Th::Fp, B::Ident(*x, *y));
                     }
                 }
             }
